@@ -168,6 +168,29 @@ def e_discriminants():
                   Variant(I('Z'), 'unit', [], [], ('1', 1)), Variant(I('W'), 'unit', [])]
             yield Item('enum', I('A'), tparam(), [], False,
                        [Attr('repr', repr_=('idents', ids)), dw(['PartialOrd', 'PartialEq', 'Ord', 'Eq'], gen_T())], vs)
+    # discriminants that only fit the declared representation (a narrower read or cast mis-orders them)
+    big = {'u64': [('1 << 40', 1 << 40), ('u64::MAX', (1 << 64) - 1), ('5', 5)],
+           'i64': [('i64::MIN', -(1 << 63)), ('-1', -1), ('1 << 40', 1 << 40)],
+           'u128': [('5', 5), ('1 << 64', 1 << 64), ('(1 << 64) + 3', (1 << 64) + 3)],
+           'i128': [('-(1 << 64)', -(1 << 64)), ('-1', -1), ('1 << 100', 1 << 100)],
+           'isize': [('-5', -5), ('isize::MIN', -(1 << 63)), ('3', 3)],
+           'usize': [('usize::MAX', (1 << 64) - 1), ('2', 2), ('1 << 33', 1 << 33)],
+           'u32': [('u32::MAX', (1 << 32) - 1), ('0', 0), ('1 << 31', 1 << 31)],
+           'i32': [('i32::MIN', -(1 << 31)), ('-2', -2), ('i32::MAX', (1 << 31) - 1)],
+           'u16': [('u16::MAX', 65535), ('256', 256), ('1', 1)], 'i16': [('i16::MIN', -32768), ('255', 255), ('-1', -1)],
+           'u8': [('255', 255), ('128', 128), ('0', 0)], 'i8': [('-128', -128), ('127', 127), ('-1', -1)]}
+    for r, ds in big.items():
+        for withc in (False, True):
+            ids = [I('C'), I(r)] if withc else [I(r)]
+            for extra in ([], ['Clone'], ['Clone', 'Copy']):
+                yield unit_enum('A', ['X', 'Y', 'Z'], [Attr('repr', repr_=('idents', ids)),
+                                                     dw(['PartialOrd', 'PartialEq', 'Default'] + extra, [Gen('custom', 'u8: Copy')])],
+                                {0: ds[0], 1: ds[1], 2: ds[2]}, {2: [opt('default')]})
+            vs = [Variant(I('X'), 'tuple', [Field(0, 'T', [])], [], ds[0]),
+                  Variant(I('Y'), 'named', [Field(I('a'), 'T', [])], [], ds[1]),
+                  Variant(I('Z'), 'unit', [], [], ds[2])]
+            yield Item('enum', I('A'), tparam(), [], False,
+                       [Attr('repr', repr_=('idents', ids)), dw(['PartialOrd', 'PartialEq', 'Ord', 'Eq', 'Hash'], gen_T())], vs)
     # data enum without repr, where-clause on the item, lifetimes and consts in the generics
     PHU = '::core::marker::PhantomData<U>'
     vs = [Variant(I('X'), 'tuple', [Field(0, 'T', [])]), Variant(I('Y'), 'unit', []), Variant(I('Z'), 'named', [Field(I('a'), PHU, [])])]
@@ -419,9 +442,58 @@ def e_invalid():
 JUNK_G = 'junk'
 
 
+# ------------------------------------------------------------------ E10: names (C14 C10 C16)
+
+def rename(item, vnames, fnames, iname=None):
+    """Copy of `item` with variant i named vnames[i % ..], named fields renamed position-wise."""
+    import copy
+    it = copy.deepcopy(item)
+    if iname is not None:
+        it.ident = I(iname)
+    for i, v in enumerate(it.variants):
+        if it.kind == 'enum':
+            v.ident = I(vnames[i % len(vnames)])
+        else:
+            v.ident = it.ident
+        for j, f in enumerate(v.fields):
+            if not isinstance(f.member, int):
+                f.member = I(fnames[j % len(fnames)])
+    return it
+
+
+def e_names():
+    """Every identifier-forming site of the generator (`__field_<name>`, `__other_field_<name>`,
+    `__VALIDATE_ISIZE_<Variant>`, Debug names, patterns and constructors) with raw identifiers, names equal to the
+    macro's own temporaries and names of std items, over a cross-section of all body strategies."""
+    base = []
+    for k, it in enumerate(e_discriminants()):
+        if k % 9 == 0:
+            base.append(it)
+    for k, it in enumerate(e_incomparable()):
+        if k % 23 == 0:
+            base.append(it)
+    for k, it in enumerate(e_skip()):
+        if k % 31 == 0:
+            base.append(it)
+    for k, it in enumerate(e_zeroize()):
+        if k % 7 == 0:
+            base.append(it)
+    for k, it in enumerate(e_default()):
+        if k % 3 == 0:
+            base.append(it)
+    schemes = [
+        (['r#fn', 'r#type', 'r#loop', 'r#match', 'r#Box', 'r#enum'], ['r#type', 'r#fn', 'r#match', 'r#as'], 'r#struct'),
+        (['__field_0', 'Self_', 'None', 'Some', 'Equal', 'Ok'], ['__other', '__state', '__f', '__cmp', '__builder', '__this'], 'Vec'),
+        (['A', 'r#B', 'C', 'r#D', 'E', 'r#F'], ['__self_disc', '__field_0', '__other_field_0', 'other', 'state', 'f'], 'Box'),
+    ]
+    for it in base:
+        for vn, fn, iname in schemes:
+            yield rename(it, vn, fn, iname)
+
+
 ENUMERATORS = {
     'skip': e_skip, 'incomparable': e_incomparable, 'discriminants': e_discriminants, 'default': e_default,
-    'bounds': e_bounds, 'zeroize': e_zeroize, 'debug': e_debug, 'invalid': e_invalid,
+    'bounds': e_bounds, 'zeroize': e_zeroize, 'debug': e_debug, 'invalid': e_invalid, 'names': e_names,
 }
 
 
